@@ -734,7 +734,76 @@ pub fn eval_det(req: &str, reg_s: &str, root: &str, rv: u32, strat_s: &str) -> C
     Case { req: req.to_string(), imp: format!("{}####{}", a, ia), nontrivial: a.contains("derived("), oracle_fail: fail, tags }
 }
 
+/// `soak|<F>|<s or i>|<seed>` : state surviving from one `resolve` call to a later one on the same thread.
+/// 16 target cases (layered registries, mostly unsolvable) are run once, then F trivial failing resolutions,
+/// then the targets again in reverse order: target i sees F + 30 - 2i other calls between its two runs, so the
+/// requests with F and F + 1 cover every distance in a window of 32 — placed around 2^8 and 2^16 by the
+/// generator (a cache, mark table or generation counter that is not reset, or wraps, shows).  The second run
+/// must print exactly what the first printed (C07: same call, same answers, same process).
+pub fn eval_soak(req: &str, fillers: u32, names: &str, seed: u64) -> Case {
+    let mut rng = Rng::new(seed ^ 0x50a4);
+    let strat = crate::solver::Strat::NewestFewest;
+    let mut sized: Vec<(usize, crate::solver::Registry<VS>, u32)> = vec![];
+    let mut tries = 0;
+    while sized.len() < 16 && tries < 4000 {
+        tries += 1;
+        let reg = crate::solver::layered_registry::<VS>(&mut rng, &[1, 3, 5]);
+        let rvs = reg.versions("root");
+        let rv = if rvs.is_empty() { 1 } else { rvs[rng.below(rvs.len() as u64) as usize] };
+        let run = crate::solver::run_resolve(&reg, "root", rv, &strat, &crate::solver::Fault::None);
+        let failing = matches!(run.outcome, crate::solver::Outcome::NoSolution(_));
+        // 13 unsolvable targets with a conflict, 3 solvable ones
+        if (failing && sized.len() < 13) || (!failing && sized.len() >= 13) {
+            let (imp, _) = crate::solver::transcript(&run);
+            sized.push((imp.matches(" ## I").count(), reg, rv));
+        }
+    }
+    // largest store first (and so last in the second, reversed pass): what a target leaves behind at its highest
+    // incompatibility ids is not overwritten by the other targets between its two runs
+    sized.sort_by(|a, b| b.0.cmp(&a.0));
+    let targets: Vec<(crate::solver::Registry<VS>, u32)> = sized.into_iter().map(|(_, r, v)| (r, v)).collect();
+    let filler: crate::solver::Registry<VS> = crate::solver::Registry::from_text("root@1:zz=u:u");
+    let filler2: crate::solver::Registry<VS> = crate::solver::Registry::from_text("root@1:a=u:u;a@1:root=i3:i3");
+    let run = |reg: &crate::solver::Registry<VS>, rv: u32| -> String {
+        if names == "i" { run_text_int(reg, rv, true) } else { run_text_string(reg, "root", rv, &strat) }
+    };
+    let first: Vec<String> = targets.iter().map(|(r, rv)| run(r, *rv)).collect();
+    for k in 0..fillers {
+        let _ = run(if k % 7 == 3 { &filler2 } else { &filler }, 1);
+    }
+    let mut fail = None;
+    let mut same = 0;
+    for (i, (r, rv)) in targets.iter().enumerate().rev() {
+        let again = run(r, *rv);
+        if again == first[i] {
+            same += 1;
+        } else if fail.is_none() {
+            let d = first[i].chars().zip(again.chars()).take_while(|(a, b)| a == b).count();
+            fail = Some(format!(
+                "target {} ({}, root {}) answered differently when called again after {} other resolutions in the same thread: first `…{}` then `…{}`",
+                i, r.to_text(), rv, fillers + 30 - 2 * i as u32,
+                first[i].chars().skip(d.saturating_sub(20)).take(80).collect::<String>(),
+                again.chars().skip(d.saturating_sub(20)).take(80).collect::<String>()
+            ));
+        }
+    }
+    Case { req: req.to_string(), imp: format!("soak {} targets, {} unchanged", targets.len(), same), nontrivial: true, oracle_fail: fail, tags: vec!["repeated_call_soak"] }
+}
+
 pub fn gen_c07(sink: &mut Sink, thorough: bool, seed: u64) {
+    // repeated calls in one thread, distances around 2^8 and 2^16 (thorough: also 2^17)
+    let mut centres: Vec<u32> = vec![256, 65_536];
+    if thorough {
+        centres.push(131_072);
+    }
+    for c in centres {
+        for names in ["s", "i"] {
+            for f in [c - 17, c - 16] {
+                sink.push(crate::eval::eval_line(&format!("soak|{}|{}|{}", f, names, seed)));
+            }
+        }
+    }
+    sink.notes.push("repeated-call soak: 16 targets re-run after F other failing resolutions in the same thread, every distance in [c-16, c+15] for c = 2^8, 2^16 (string and integer package names)".into());
     let mut rng = Rng::new(seed ^ 0x0707);
     let n = crate::util::scaled(if thorough { 60_000 } else { 4_000 });
     for i in 0..n {
